@@ -243,7 +243,7 @@ PROPS = {
             'which error reply (or none) a MALFORMED request gets: the specification allows any well-formed error reply there, so two different ones would both verify (by reading, the two paths are identical)',
             'that the operation IS invoked (capabilities forbid calls, they cannot demand one); that a reply is sent is covered as on the sync side, on results ([C20.<op>.replied] / [C20.<op>.answered], same clauses as C01)',
             'interleavings with other tasks, cancellation at an await point, Send and lifetime obligations of the futures (rule R18 drops `async` and `.await`)',
-            'bytes moved through AsyncZcWriter / AsyncZcReader; FuseDevWriter::async_write* bodies (closures capturing &mut self)',
+            'bytes moved through AsyncZcWriter / AsyncZcReader',
             'non-forwarding bodies of the Arc<FS> AsyncFileSystem impl are undecided (exit 2); async results cannot carry the passthrough backing id (Vfs async_open / async_create are specified as the sync result minus that component); AsyncFileSystem impls of PassthroughFs / OverlayFs',
             'logging and MetricsHook calls',
         ],
